@@ -214,7 +214,7 @@ def run(ctx):
         per = 16
         for k in range(0, len(enum), per):
             jobs.append(("c28e%d" % (k // per), _assign_ids(enum[k:k + per])))
-        for s in range(96):
+        for s in range(48):
             jobs.append(("c28t%d" % s, _random_groups(ctx.seed, s, 1, N_ARITH_Q, N_CMP_Q)))
     ctx.pmap(_shard, jobs)
     if not ctx.quick and not ctx.counters.get("module_build_failures"):
